@@ -34,8 +34,11 @@ fn prop(model: &Model, ix: &Index, tape: &[u32], st: &mut Stats) -> Result<(), S
     // user declarations only: responses are then predictable without knowing error numbers
     cfg.only = Some((0..model.spec.decls.len()).collect());
     cfg.p_empty_message = 1;
+    // newlines inside string/block payloads: the message is then executed piecewise
+    cfg.lit.newlines = t.chance(1, 3);
     let n_msgs = t.range(1, 8);
     let mut msgs: Vec<Message> = Vec::new();
+    let mut faulty_mid: Vec<usize> = Vec::new();
     for _ in 0..n_msgs {
         let mut m = gen::gen_message(&mut t, ix, &cfg);
         if t.chance(1, 4) && !m.units.is_empty() {
@@ -56,30 +59,102 @@ fn prop(model: &Model, ix: &Index, tape: &[u32], st: &mut Stats) -> Result<(), S
                 m.trailing_semicolon = false;
             }
         }
+        // or a faulty unit in front of units that cannot answer (commands only), so that whether the
+        // rest of the message is executed or dropped makes no difference to the transport
+        else if t.chance(1, 5) && !m.units.is_empty() {
+            let first_ok = (0..m.units.len()).rev().take_while(|i| !m.units[*i].header.query).last();
+            if let Some(lo) = first_ok {
+                let pos = t.range(lo, m.units.len() - 1);
+                let mut u = vcore::ast::Unit::new(
+                    Header {
+                        absolute: true,
+                        mnems: vec!["NOPE".to_string()],
+                        query: false,
+                    },
+                    vec![],
+                );
+                if t.chance(1, 2) {
+                    u.raw = Some(b"@".to_vec());
+                }
+                m.units.insert(pos, u);
+                faulty_mid.push(msgs.len());
+            }
+        }
         msgs.push(m);
     }
-    // predicted response bytes per message
+    // predicted response bytes per message and per unit, and the offsets at which units/messages end
     let mut per_msg: Vec<Vec<u8>> = Vec::new();
+    let mut per_unit: Vec<Vec<Vec<u8>>> = Vec::new();
+    let mut unit_ends: Vec<Vec<usize>> = Vec::new();
+    let mut starts: Vec<usize> = Vec::new();
     let mut ends: Vec<usize> = Vec::new();
     let mut stream: Vec<u8> = Vec::new();
     for m in &msgs {
-        let mut kinds = vec![gen::UnitKind::Normal; m.units.len()];
-        if let Some(last) = m.units.last() {
-            if last.raw.is_some() {
-                let k = kinds.len() - 1;
-                kinds[k] = gen::UnitKind::Syntax;
-            }
-        }
-        let pred = gen::predict(model, std::slice::from_ref(m), Some(&[kinds]), &env);
+        let kinds: Vec<gen::UnitKind> =
+            m.units.iter().map(|u| if u.raw.is_some() { gen::UnitKind::Syntax } else { gen::UnitKind::Normal }).collect();
         let mut bytes = Vec::new();
+        let mut units_resp: Vec<Vec<u8>> = Vec::new();
+        let mut uends: Vec<usize> = Vec::new();
+        let mut ctx: Vec<String> = Vec::new();
+        let mut dead = false;
+        let base = stream.len();
+        let mut off = base;
+        for (ui, u) in m.units.iter().enumerate() {
+            // response of this unit alone, predicted in its path context
+            let single = Message::new(vec![u.clone()]);
+            let mut r = Vec::new();
+            if dead {
+                // behind a faulty unit: commands only, no answer whether executed or not
+            }
+            else if matches!(kinds[ui], gen::UnitKind::Syntax) {
+                dead = true;
+            }
+            else {
+                let res = model.resolve(&ctx, &u.header);
+                if res.target.is_none() {
+                    dead = true;
+                }
+                if let Some(vcore::spec::Target::User(id)) = res.target {
+                    let d = &model.spec.decls[id];
+                    let ok = d.params.len() == u.args.len()
+                        && u.args.iter().zip(&d.params).all(|(l, ty)| matches!(vcore::lits::expect(l, *ty), vcore::lits::Expect::Value(_)));
+                    if ok && d.is_query() && env.fail[id].is_none() {
+                        vcore::rval::encode(&d.ret, &env.rets[id], &mut r);
+                        r.push(b'\n');
+                    }
+                }
+                if let Some(c) = res.new_ctx {
+                    ctx = c;
+                }
+            }
+            let _ = single;
+            bytes.extend_from_slice(&r);
+            units_resp.push(r);
+            let mut tmp = Vec::new();
+            u.render(&mut tmp);
+            off += tmp.len() + 1; // the unit and its ';' or (for the last unit) the start of the tail
+            uends.push(off);
+        }
+        // cross-check with the message-level prediction
+        let pred = gen::predict(model, std::slice::from_ref(m), Some(&[kinds]), &env);
+        let mut bytes2 = Vec::new();
         for p in &pred {
             if let PEv::Response(b) = p {
-                bytes.extend_from_slice(b);
+                bytes2.extend_from_slice(b);
             }
         }
+        if bytes != bytes2 {
+            return Err(format!("harness: per-unit and per-message predictions differ for '{}'", esc(&m.rendered())));
+        }
+        let _ = &faulty_mid;
         per_msg.push(bytes);
+        per_unit.push(units_resp);
+        starts.push(stream.len());
         m.render(&mut stream);
-        ends.push(stream.len());
+        let end = stream.len();
+        // unit ends can never exceed the message end
+        unit_ends.push(uends.into_iter().map(|e| e.min(end)).collect());
+        ends.push(end);
     }
     let need = msgs
         .iter()
@@ -91,7 +166,8 @@ fn prop(model: &Model, ix: &Index, tape: &[u32], st: &mut Stats) -> Result<(), S
     if fitting.is_empty() {
         return Ok(());
     }
-    let n = fitting[t.below(fitting.len().min(4))];
+    // mostly the tightest buffer that holds every message and every message's answers
+    let n = if t.chance(2, 3) { fitting[0] } else { fitting[t.below(fitting.len().min(4))] };
     let reads = gen_reads(&mut t, stream.len(), n);
     let np = t.below(4);
     let pauses: Vec<u8> = (0..np).map(|_| t.below(3) as u8).collect();
@@ -121,16 +197,38 @@ fn prop(model: &Model, ix: &Index, tape: &[u32], st: &mut Stats) -> Result<(), S
     for e in &trace {
         match e {
             Ev::ARead { .. } | Ev::AFail { .. } => {
-                // everything delivered completely by earlier reads must have been answered and flushed
+                // everything delivered completely by earlier reads must have been answered and flushed;
+                // of the message in progress (possible with payload newlines) the answers of units that
+                // are already delivered may have been written too - nothing else, ever
                 let mut expected: Vec<u8> = Vec::new();
+                let mut in_progress: Option<usize> = None;
                 for (i, end) in ends.iter().enumerate() {
                     if *end <= delivered {
                         expected.extend_from_slice(&per_msg[i]);
                     }
+                    else if starts[i] < delivered && in_progress.is_none() {
+                        in_progress = Some(i);
+                    }
                 }
-                if written != expected {
+                let mut ok = written == expected;
+                if !ok {
+                    if let Some(i) = in_progress {
+                        let mut cand = expected.clone();
+                        for (ui, r) in per_unit[i].iter().enumerate() {
+                            if unit_ends[i][ui] > delivered {
+                                break;
+                            }
+                            cand.extend_from_slice(r);
+                            if written == cand {
+                                ok = true;
+                                break;
+                            }
+                        }
+                    }
+                }
+                if !ok {
                     return Err(ctx(format!(
-                        "when the transport was asked for more input after {} bytes, '{}' had been written but the completely delivered messages call for '{}'",
+                        "when the transport was asked for more input after {} bytes, '{}' had been written but the completely delivered messages call for '{}' (plus, at most, answers of already delivered units of the message in progress)",
                         delivered,
                         esc(&written),
                         esc(&expected)
@@ -194,9 +292,9 @@ fn main() {
     let spec = vrun::spec_of(fixture::fx::SPEC_JSON);
     let model = Model::build(&spec).expect("fx fixture is collision-free");
     let ix = Index::new(&model, true);
-    h.assume("N is large enough for every message and every response of the stream; messages contain no payload newlines; faulty units are last in their message");
+    h.assume("N is large enough for every message and for all answers of any one message (mostly the tightest instantiated size); payload newlines occur in a third of the streams; faulty units are last in their message");
     h.assume("finite streams end with an end-of-stream error from the transport, so 'never returns Ok' is decided for finite generated streams only");
-    let cases = h.tier.pick(12_000, 400_000);
+    let cases = h.tier.pick(12_000, 2_000_000);
     h.check(
         "c10.answers_and_faults",
         "proptest tapes -> streams of 1-8 messages (queries, commands, trailing faulty units) over the fx fixture under random read schedules (several messages per read, single bytes, empty reads) and Pending scripts: in the fault-free run, at every read call the bytes written so far must equal the predicted responses of exactly the messages completely delivered by earlier reads, flushed, result = the transport's end-of-stream error; then the run is repeated with a transport error injected at EVERY position of the read/write/flush call sequence: same calls before it, the error returned unchanged, no call after it; non-trivial = error injected on a write, a flush, or the read following an answer",
